@@ -6,7 +6,7 @@
 (*     h    : what the generator does with an exception thrown in at the   *)
 (*            yield (10 handlers)                                          *)
 (*     post : what follows the yield (after a normal resume, or after a    *)
-(*            handler that swallowed): stop | yield | raise                *)
+(*            handler that swallowed): stop | yield | raise | raisesai     *)
 (* (13 handlers) crossed with the way the with-block ends (8 outcomes).  The machine has *)
 (* the steps of `async with`: Enter (generator to its first yield),        *)
 (* Block (the body ends), Exit (the generator is resumed, thrown into or   *)
@@ -24,7 +24,7 @@ CONSTANTS OutFile
 Pres == {"raise", "noyield", "yield"}
 Handlers == {"none", "finally", "swallow", "reraise", "raisenew", "raisenewfromnone", "raisenewfrom",
              "raisesametype", "return", "yieldagain", "raisesai", "raisertfrom", "raisert"}
-Posts == {"stop", "yield", "raise"}
+Posts == {"stop", "yield", "raise", "raisesai"}
 Outcomes == {"normal", "Exception", "BaseException", "StopIteration", "StopAsyncIteration",
              "RuntimeError", "GeneratorExit", "KeyboardInterrupt"}
 Libs == {"stdlib", "asyncstdlib"}
@@ -55,7 +55,9 @@ Enter ==
 Block == /\ phase = "block" /\ phase' = "exit" /\ UNCHANGED <<prog, o, lib, entered, gen, nresume, result>>
 
 \* what follows the yield once the generator runs on normally
-AfterYield == CASE prog.post = "stop" -> "returns" [] prog.post = "yield" -> "yields" [] OTHER -> "new:PostError"
+\* ("raisesai": the code after the yield lets a StopAsyncIteration escape -- converted like any other)
+AfterYield == CASE prog.post = "stop" -> "returns" [] prog.post = "yield" -> "yields"
+                [] prog.post = "raisesai" -> "conv-of-new" [] OTHER -> "new:PostError"
 
 \* the generator's answer to the block's exception being thrown in at the yield.
 \* PEP 479/525: a StopIteration/StopAsyncIteration leaving an async generator body is
@@ -90,7 +92,7 @@ Classify ==
   /\ phase = "classify" /\ phase' = "done"
   /\ result' =
        IF o = "normal"
-       THEN CASE gen = "returns" -> "ok" [] gen = "yields" -> "rt-nostop" [] OTHER -> gen
+       THEN CASE gen = "returns" -> "ok" [] gen = "yields" -> "rt-nostop" [] gen = "conv-of-new" -> "rt-conv" [] OTHER -> gen
        ELSE IF o = "GeneratorExit" /\ lib = "asyncstdlib"
        THEN \* the generator is closed: finishing, returning or raising GeneratorExit itself
             \* lets the same GeneratorExit propagate; yielding is an error; any other
